@@ -568,6 +568,12 @@ func buildParamsLab() (*Lab, map[string][]pcell, error) {
 		pkgs = append(pkgs, LabPkg{Name: "par_" + fw + "_lead", Spec: leadSpec, FW: fw,
 			Cfg: codegen.Configuration{Generate: fwGenerate(fw, codegen.GenerateOptions{Models: true, Client: true})}})
 	}
+	// an operation that takes query parameters of every kind AND a form-encoded body: the body is not where query
+	// parameters live, whatever its fields are called
+	for _, fw := range Frameworks {
+		pkgs = append(pkgs, LabPkg{Name: "par_" + fw + "_form", Spec: formSpec, FW: fw,
+			Cfg: codegen.Configuration{Generate: fwGenerate(fw, codegen.GenerateOptions{Models: true})}})
+	}
 	sort.Slice(pkgs, func(i, j int) bool { return pkgs[i].Name < pkgs[j].Name })
 	lab, err := BuildLab(labRoot, "params", pkgs)
 	return lab, cells, err
@@ -637,3 +643,14 @@ func goVarName(name string) string {
 	}
 	return v
 }
+
+var formSpec = []byte(`{"openapi":"3.0.3","info":{"title":"form","version":"1"},"paths":{"/search":{"post":{"operationId":"search",
+"parameters":[
+ {"name":"token","in":"query","required":true,"content":{"text/plain":{"schema":{"type":"string"}}}},
+ {"name":"filter","in":"query","required":true,"content":{"application/json":{"schema":{"$ref":"#/components/schemas/Filter"}}}},
+ {"name":"n","in":"query","required":true,"schema":{"type":"integer"}},
+ {"name":"opt","in":"query","schema":{"type":"integer"}},
+ {"name":"note","in":"query","content":{"text/plain":{"schema":{"type":"string"}}}}],
+"requestBody":{"content":{"application/x-www-form-urlencoded":{"schema":{"type":"object","properties":{"q":{"type":"string"}}}}}},
+"responses":{"204":{"description":"ok"}}}}},
+"components":{"schemas":{"Filter":{"type":"object","properties":{"limit":{"type":"integer"}}}}}}`)
